@@ -1,25 +1,25 @@
 SPECIFICATION Spec
 CONSTANTS
   Kinds = {"crl", "image"}
-  FullKinds = {"crl", "image"}
+  FullKinds = {"crl", "ocsp", "image"}
   LiteChain = 0
   LongBound = 0
-  AllowForms = {"none", "case"}
-  RichAllows = {"none", "case"}
+  AllowForms = {"none", "exact", "ip"}
+  RichAllows = {}
   Variant = 1
-  MaxAns = 3
+  MaxAns = 1
   ChainBound = 0
   Schemes1 = {"http"}
   Users1 = {"none"}
-  Names1 = {"pki"}
-  RichNames = {"pki"}
-  Lits1 = FALSE
+  Names1 = {"pki", "other"}
+  RichNames = {}
+  Lits1 = TRUE
   SchemesR = {"http"}
   UsersR = {"none"}
   NamesR = {"other"}
   LitsR = FALSE
   CarrierKinds = {}
-  HistBound = 0
-  PoolClasses = {}
+  HistBound = 2
+  PoolClasses = {"pub4", "p10"}
   Emit = TRUE
 INVARIANTS Safe RedirectsChecked EmitCase
